@@ -13,6 +13,24 @@ import sys
 import random as _pyrandom
 
 
+def is_mask_bound(n):
+    """Bounds of statistical masks: 2^j (after division among the contributors) or 2^j // d + 1 (conversion masks),
+    d = number of contributors <= C(7,3).  Field orders used here are primes / small prime powers and are not of that form
+    (and if one were, the only field randomness that must not be extreme -- the blinding factor -- is handled first)."""
+    if n < 2:
+        return False
+    if n & (n - 1) == 0:
+        return True
+    if n < 17:
+        return False
+    for d in range(1, 36):
+        lo, hi = (n - 1) * d, n * d            # is there a power of two in [lo, hi) ?
+        p2 = 1 << (lo - 1).bit_length() if lo > 1 else 1
+        if lo <= p2 < hi:
+            return True
+    return False
+
+
 class ScriptSecrets:
     PATTERN_LIMIT = 48      # extreme patterns apply to the first draws only (rejection loops must end)
 
@@ -32,7 +50,7 @@ class ScriptSecrets:
     # -- classification --------------------------------------------------------------------
     @staticmethod
     def is_mask(kind, n):
-        return kind == 'bits' or (n & (n - 1)) == 0
+        return kind == 'bits' or is_mask_bound(n)
 
     def _blinding_site(self):
         f = sys._getframe(3)
